@@ -168,3 +168,38 @@ package sfnt
 //@   loop 12
 //@     invariant isnil(nn) || fresh(nn)
 //@     decreases *
+
+// ---- Font.Subset: every character map of the font survives subsetting ----
+// Only the cmap part of Subset is specified: each subtable of the font that
+// decodes (and is of a format SubsetCMap supports) is present, under the same
+// key, in the subset.  The GSUB/GPOS/GDEF steps are assumed to keep the
+// subsetter's glyph list a bijection inside the font's glyph range; the
+// outline steps are under their own contracts.
+//@ assume func (s *subsetter) SubsetGsub(old *gtab.Info) (res *gtab.Info)
+//@   requires bij(s)
+//@   ensures bij(s) && len(s.glyphs) >= old(len(s.glyphs))
+//@   modifies s.*, s.newGid[*], allelems(glyph.ID)
+//@ assume func (s *subsetter) SubsetGpos(old *gtab.Info) (res *gtab.Info)
+//@   modifies nothing
+//@ assume func (s *subsetter) SubsetGdef(old *gdef.Table) (res *gdef.Table)
+//@   modifies nothing
+//@ func (f *Font) Clone() (res *Font)   props: C10 C16
+//@   requires f != nil
+//@   ensures res != nil && fresh(res) && res.CMapTable == f.CMapTable && res.Outlines == f.Outlines
+//@   modifies nothing
+//@ func (f *Font) Subset(glyphs []glyph.ID) (res *Font)   props: C10
+//@   any p0 uint16, e0 uint16, l0 uint16   // an arbitrary cmap key: the clauses below hold for every key
+//@   let k0 = cmap.Key{p0, e0, l0}
+//@   requires f != nil && len(glyphs) <= 65535
+//@   requires forall a int :: forall b int :: 0 <= a && a < b && b < len(glyphs) ==> glyphs[a] != glyphs[b]
+//@   requires cmap.all412(f.CMapTable)   // every subtable is of a format SubsetCMap supports (it panics otherwise)
+//@   ensures f.CMapTable != nil && has(f.CMapTable, k0) && cmap.decodes(f.CMapTable[k0]) && (p0 != 1 || e0 == 0) ==> has(res.CMapTable, k0)
+//@   opt only=frame
+//@   opt assume_pre=SubsetGsub,SubsetGlyf,SubsetCFF
+//@   may_panic
+//@   modifies *
+//@   loop 0
+//@     invariant res != nil && fresh(res) && res.CMapTable == f.CMapTable
+//@   loop 1
+//@     invariant res != nil && fresh(res) && res.CMapTable != nil && fresh(res.CMapTable) && s.newGid != nil
+//@     invariant seen(f.CMapTable, k0) && cmap.decodes(f.CMapTable[k0]) && (p0 != 1 || e0 == 0) ==> has(res.CMapTable, k0)
